@@ -860,7 +860,7 @@ func tExpandPRelu(gg *ggraph, rt *rapid.T) bool {
 }
 
 func tPRelu(gg *ggraph, rt *rapid.T) bool {
-	v, ok := gg.pick(rt, "preluIn", func(v gv) bool { return isF32(v) && len(v.shape) >= 1 && !v.init })
+	v, ok := gg.pick(rt, "preluIn", func(v gv) bool { return isF32(v) && !v.init })
 	if !ok {
 		return false
 	}
@@ -942,6 +942,9 @@ func genGraph(rt *rapid.T, opts ggOpts) *ggraph {
 		}
 		if !opts.perSample {
 			kinds = append(kinds, "F1")
+			if rapid.IntRange(0, 2).Draw(rt, "scalarInput") == 0 {
+				kinds = append(kinds, "F0")
+			}
 		}
 		switch rapid.SampledFrom(kinds).Draw(rt, "inputKind") {
 		case "NF":
@@ -951,6 +954,8 @@ func genGraph(rt *rapid.T, opts ggOpts) *ggraph {
 				gg.batchN = rapid.SampledFrom([]int{64, 65, 70}).Draw(rt, "hugeN")
 				shape = []int{gg.batchN, rapid.SampledFrom([]int{65, 70, 100}).Draw(rt, "hugeF")}
 			}
+		case "F0":
+			shape = []int{} // a rank-0 input: it flows through the elementwise operators, PRelu and Cast
 		case "F1":
 			shape = []int{rapid.IntRange(1, 6).Draw(rt, "F1")} // a plain feature vector (its only axis is declared symbolic)
 		case "NCHW":
@@ -961,6 +966,10 @@ func genGraph(rt *rapid.T, opts ggOpts) *ggraph {
 			shape = []int{gg.batchN, rapid.IntRange(1, 4).Draw(rt, "S"), rapid.IntRange(2, 3).Draw(rt, "I")}
 		}
 		in := gv{name: gg.fresh("x"), shape: shape, dt: tensor.Float32, batch: 0}
+		if len(shape) == 0 {
+			in.batch = -1
+			gg.feat("rank-0-input")
+		}
 		gg.inputs = append(gg.inputs, in)
 		gg.pool = append(gg.pool, in)
 	}
